@@ -5,13 +5,19 @@ CFG = dict(
           "code replaced by Internal), C03_unary_status_error, C03_stream_status_error, C03_unary_plain_error, C03_expected_nonok, "
           "C03_no_false_success_unary/_stream/_run (iff-characterisation of success for every final envelope / response sequence), "
           "C03_reset_not_success, C03_ok_with_body, C03_unary_foreign, C03_stream_foreign, C03_wire_code_nonok in coq/Props/C03.v; "
+          "on interleavings (every run of Model/Client.v, Model/Server.v, Model/Sys.v): C03_client_observes (what RecvMsg can return at "
+          "the end of a stream and why), C03_server_trailer (SendTrailer's envelope is a function of the handler's result), "
+          "C03_sys_no_false_success_partial (io.EOF only if the handler returned nil; the non-OK identification is composed per "
+          "component), C03_client_model_link; C03_stream_plain_error, C03_stream_ok_trailer_with_body; "
           "grpc's conversions are arguments of the model whose laws are premises validated on the real library on every run; the model "
           "is run against processUnaryRpc, serverStream.SendTrailer, Invoke, the client stream and whole RPCs on every run.",
     props="Props/C03.v",
     theorems=["C03_unary_roundtrip", "C03_stream_roundtrip", "C03_stream_program", "C03_expected_nonok",
               "C03_unary_status_error", "C03_stream_status_error", "C03_unary_plain_error",
               "C03_no_false_success_unary", "C03_no_false_success_stream", "C03_no_false_success_run",
-              "C03_reset_not_success", "C03_ok_with_body", "C03_unary_foreign", "C03_stream_foreign", "C03_wire_code_nonok"],
+              "C03_reset_not_success", "C03_ok_with_body", "C03_unary_foreign", "C03_stream_foreign", "C03_wire_code_nonok",
+              "C03_client_observes", "C03_client_model_link", "C03_server_trailer", "C03_sys_no_false_success_partial",
+              "C03_stream_plain_error", "C03_stream_ok_trailer_with_body"],
     imports=["Model.Status", "Check.C03c"],
     case_type="c03case",
     find_bad_from="find_bad_from",
